@@ -32,7 +32,7 @@ FAMILY_NAMES = ["Packetizer", "Depacketizer", "RoundTrip", "PacketFIFO", "Arbite
 
 
 def plan(tier):
-    n = 60 if tier == "quick" else 3000
+    n = 300 if tier == "quick" else 6000
     return [(f, n) for f in FAMILY_NAMES]
 
 
@@ -411,7 +411,7 @@ def run(scn):
                 V("C16", "beat_mismatch", "source0", "beat #%d at cycle %d: %s (field, expected, got)" % (k, tg, bad[:4]), tg)
                 break
         else:
-            if len(g) < len(exp) and bench.violation is None:
+            if len(g) < len(exp):
                 V("C16", "beat_missing", "source0", "%d of %d expected beats delivered after %d cycles (tail from %d)"
                   % (len(g), len(exp), cyc, horizon))
                 V("C04", "no_progress", "source0", "%d of %d expected beats delivered after %d cycles (tail from %d)"
@@ -451,7 +451,7 @@ def run(scn):
             cur_master = None if tok["last"] else mi
         else:
             tot = sum(len(a) for a in acc)
-            if len(got[0]) < tot and bench.violation is None:
+            if len(got[0]) < tot:
                 V("C16", "beat_missing", "slave", "%d of %d accepted beats delivered" % (len(got[0]), tot))
     elif fam == "Dispatcher":
         n = p["n"]
@@ -488,9 +488,9 @@ def run(scn):
                       "(accepted at cycle %d)" % (k, tg, tok["data"], tok["last"], et["data"], et["last"], ec), tg)
                     break
             else:
-                if len(got[i]) < len(exp[i]) and bench.violation is None:
+                if len(got[i]) < len(exp[i]):
                     V("C16", "beat_missing", "slave%d" % i, "%d of %d beats delivered" % (len(got[i]), len(exp[i])))
-    if not all_acc and bench.violation is None:
+    if not all_acc:
         for i, pr in enumerate(prods):
             if not pr.done():
                 V("C04", "sink_blocked", "sink%d" % i, "%d of %d beats accepted after %d cycles (cooperative tail from %d)"
